@@ -16,6 +16,16 @@ CHECKS = {
             "reference codec; cross-implementation decode in every legal representation.",
             "Trusts refcodec (RFC vectors pinned in its unit tests). Values outside the enumerated families (most of 2^62) are not covered.",
             "bounded-exhaustive input enumeration on the implementation vs. reference codec"),
+    "C15": ("protox", "exploration", "DESIGN.md §6-C15",
+            "For every corpus element sequence (valid frames/stream headers of every varint-length class, non-minimal encodings, long payloads, "
+            "unknown types, invalid session ids, oversize lengths; singles and ordered pairs) and each of 7 reader subjects (Frame, StreamHeader, "
+            "the four frame-reading typestates, the uni-stream upgrade): the one-shot, buffered and async paths are executed on the whole input, "
+            "on every proper prefix, with reset / not-connected injected at every read index, under every chunking of the source (all compositions "
+            "up to 9/12 bytes, header-region compositions beyond) combined with every Pending pattern of at most 2/3 Pendings, and with a stalling "
+            "source to detect over-read. All results must agree in value / error class / bytes consumed; buffered offsets must only move by whole elements.",
+            "The scripted source is a complete model of the async decoders' environment (they keep no state outside the future). Corpus is finite; "
+            "element boundaries come from refcodec.",
+            "exhaustive enumeration of read chunkings x Pending schedules x fault points on the real decoders (controlled scheduler for sans-IO futures)"),
 }
 
 NOT_YET = "check not built yet in this round (work in progress; see DESIGN.md §11 build order)"
